@@ -29,7 +29,7 @@ BUCKETS = (0.005, 0.01, 0.02, 0.05, 0.1, 0.2, 0.35, 0.5)
 
 
 def plan(tier):
-  return {'n_cases': 700 if tier == 'quick' else 14000, 'shards': 16}
+  return {'n_cases': 700 if tier == 'quick' else 42000, 'shards': 16}
 
 
 def float_reference(spec, sig, x):
